@@ -127,6 +127,38 @@ def correspondence(ctx):
                 if len(ks) > 0:
                     ctx.disagree("from_versions:" + name, "fromversions %s" % ks, "raises " + type(e).__name__, "a range", True,
                                  {"scheme": name, "versions": texts, "clause": "raises"}, spec="a range")
+        # lists of neighbours: a version with the versions made from it by replacing one qualifier word by another of the
+        # scheme's vocabulary, cutting the qualifier off, respelling: every listed version is in the range built from the list
+        from harness import pools as P
+        for _ in range(per // 2):
+            try:
+                s0, _v0 = S.gen_valid(name, rng)
+            except RuntimeError:
+                break
+            texts = [s0] + P.word_neighbours(name, s0, rng) + P.cut_tails(s0)
+            try:
+                texts.append(S.RESPELL[name](s0, rng))
+            except Exception:  # noqa: BLE001
+                pass
+            objs = []
+            for t in texts:
+                try:
+                    objs.append((t, S.vclass(name)(t)))
+                except Exception:  # noqa: BLE001
+                    pass
+            if len(objs) < 2:
+                continue
+            ctx.count("from_versions:" + name, key=tuple(t for t, _ in objs), nontrivial=True, branch="neighbours")
+            try:
+                fv = rcls.from_versions([t for t, _ in objs])
+                missing = [t for t, v in objs if not (v in fv)]
+            except Exception as e:  # noqa: BLE001
+                missing = ["raises " + type(e).__name__]
+            if missing:
+                ctx.disagree("from_versions:" + name, "fromversions %s" % [t for t, _ in objs], "%s not in the result" % missing[0], "True", True,
+                             {"scheme": name, "versions": [t for t, _ in objs], "probe": missing[0],
+                              "clause": "a range built from a list of versions does not contain a listed one"},
+                             spec="contains exactly the listed versions")
         if name == "pypi" and lines:
             ctx.sample({"line": lines[0], "model": answers[0], "scheme": name})
 
